@@ -47,6 +47,7 @@ type SpecEnv struct {
 	inQ   int
 	pos   token.Pos // program point whose locals are visible (outside loop contexts)
 	headSt *State   // state at the head of the innermost enclosing loop (anchored assertions)
+	onLocal func(*ssa.Alloc) // called for every local variable of the function a spec expression names
 }
 
 func (e *SpecEnv) with(st *State) *SpecEnv {
